@@ -80,7 +80,13 @@ fn main() {
                 thorough: tier_thorough(&m),
                 seed: get("seed").and_then(|s| s.parse().ok()).unwrap_or_else(env_seed),
                 workers: get("workers").and_then(|s| s.parse().ok()).unwrap_or(16),
-                runs: get("runs").and_then(|s| s.parse().ok()),
+                runs: get("runs").and_then(|s| s.parse().ok()).or_else(|| {
+                    // --scale 0.25 runs a quarter of the tier's run count
+                    get("scale").and_then(|s| s.parse::<f64>().ok()).map(|f| {
+                        let base = if tier_thorough(&m) { spec.thorough_runs } else { spec.quick_runs };
+                        ((base as f64 * f) as u64).max(1)
+                    })
+                }),
                 verif_dir: verif_dir(),
                 write_evidence: !has("no-evidence"),
                 log_hashes: false,
